@@ -217,6 +217,44 @@ pub fn run(run: &mut Run) {
         }
     }
 
+    // ---- chained macros: a list-valued macro as the range of another one, with the same and with
+    //      a different variable name, every list of length 0..4
+    run.sub("chained");
+    {
+        let l4 = all_lists(&[1, 2, 9, 3, 0], run.pick(3, 4));
+        let firsts: [(&'static str, usize); 3] = [("map", 2), ("map", 3), ("filter", 2)];
+        for f1 in firsts.iter() {
+            for f2 in FORMS.iter() {
+                for same_var in [true, false] {
+                    let v2 = if same_var { "x" } else { "y" };
+                    let first = match f1 {
+                        // the first stage yields ints again so that the second stage's predicate applies
+                        ("map", 2) => E::Macro("map", b(E::Var("l".into())), "x".into(), vec![E::Cond(b(call("p", vec![x()])), b(E::Lit(MV::Int(9))), b(E::Lit(MV::Int(1))))]),
+                        ("map", 3) => E::Macro("map", b(E::Var("l".into())), "x".into(), vec![call("p", vec![x()]), E::Bin("+", b(x()), b(E::Lit(MV::Int(1))))]),
+                        _ => E::Macro("filter", b(E::Var("l".into())), "x".into(), vec![call("p", vec![x()])]),
+                    };
+                    let pv = call("tr", vec![E::Var(v2.into())]);
+                    let e = macro_expr(*f2, first, v2, pv.clone(), pv);
+                    let prog = Program::compile(&e.src()).expect("chained program compiles");
+                    for l in l4.iter() {
+                        if !run.take() {
+                            continue;
+                        }
+                        let mut ctx = base_ctx.new_inner_scope();
+                        ctx.add_variable_from_value("l", ints(l).to_value());
+                        log.lock().unwrap().clear();
+                        let got = subj::exec(&prog, &ctx);
+                        run.trans(1);
+                        let got_log = log.lock().unwrap().clone();
+                        env.frames.truncate(1);
+                        env.set("l", ints(l));
+                        judge(run, "chained", &format!("{}{}>{}{}{}", f1.0, f1.1, f2.0, f2.1, if same_var { "-samevar" } else { "" }), &e, &format!("`{}` with l={:?}", e.src(), l), &mut env, &got, &got_log);
+                    }
+                }
+            }
+        }
+    }
+
     // ---- two-deep nesting: all 49 form pairs over every list of lists
     let inner_len = run.pick(2usize, 3usize);
     let inner_lists = all_lists(&[1, 9, 0], inner_len);
